@@ -387,6 +387,14 @@ func (r *Recorder) writeHeaderLocked(code int) {
 
 func (r *Recorder) Write(p []byte) (int, error) {
 	r.after()
+	n, err, total := r.writeLocked(p)
+	if err == nil && r.onWrite != nil {
+		r.onWrite(total) // outside the lock
+	}
+	return n, err
+}
+
+func (r *Recorder) writeLocked(p []byte) (int, error, int) {
 	r.mu.Lock()
 	defer r.mu.Unlock()
 	if !r.Wrote {
@@ -394,32 +402,30 @@ func (r *Recorder) Write(p []byte) (int, error) {
 	}
 	if r.declaredCL >= 0 && int64(r.Body.Len()+len(p)) > r.declaredCL {
 		r.Anomalies = append(r.Anomalies, fmt.Sprintf("wrote more than the declared Content-Length %d", r.declaredCL))
-		return 0, http.ErrContentLength
+		return 0, http.ErrContentLength, 0
 	}
 	if r.Status == 204 || r.Status == 304 {
 		if len(p) > 0 {
 			r.Anomalies = append(r.Anomalies, fmt.Sprintf("body written with status %d", r.Status))
 		}
-		return 0, http.ErrBodyNotAllowed
+		return 0, http.ErrBodyNotAllowed, 0
 	}
 	r.Body.Write(p)
 	r.Events = append(r.Events, Event{Kind: "write", N: len(p)})
-	if r.onWrite != nil {
-		r.onWrite(r.Body.Len())
-	}
-	return len(p), nil
+	return len(p), nil, r.Body.Len()
 }
 
 func (r *Recorder) Flush() {
 	r.after()
 	r.mu.Lock()
-	defer r.mu.Unlock()
 	if !r.Wrote {
 		r.writeHeaderLocked(http.StatusOK)
 	}
-	r.Events = append(r.Events, Event{Kind: "flush", N: r.Body.Len()})
+	total := r.Body.Len()
+	r.Events = append(r.Events, Event{Kind: "flush", N: total})
+	r.mu.Unlock()
 	if r.onFlush != nil {
-		r.onFlush(r.Body.Len())
+		r.onFlush(total) // outside the lock
 	}
 }
 
